@@ -1,8 +1,20 @@
 import Magog.Lemmas.GenPseudo
 import Magog.Lemmas.GenExamples
+import Magog.Lemmas.LegalWitness
 
-/-! Property C01 (pseudo-legal layer) — the engine model's pseudo-legal move generator `genPseudo`
-    produces exactly the moves allowed by the movement rules of chess.
+/-! Property C01 — "the set of moves the engine treats as playable is exactly the set of legal moves: each
+    legal move appears once and nothing else".
+
+    PART I (pseudo-legal layer, theorems 1–5 below): the engine model's pseudo-legal move generator
+    `genPseudo` produces exactly the moves allowed by the movement rules of chess.
+    PART II (legal layer, section "The legal layer" at the end of this file): the engine's king-safety
+    verdict `isLegal` is the rules' (`isLegal_spec`), `generateMoves` never panics (`C01_generateMoves_ok`)
+    and its result is a permutation of `Spec.legalMoves` (`C01_legal_exact` — THE statement of C01), mate /
+    stalemate detection (`C01_mate_stalemate`, `C01_isCheckMate`, `C01_terminal`), and castling moves passing
+    the engine's path test are legal (`castleSafe_of_inv`). All of Part II is FULL (no `_partial`); the
+    precondition besides `Inv` is `OppSafe p` = "the side not to move is not in check" (`oppSafe_iff`), which
+    every `Spec.Legal` position satisfies (`oppSafe_of_legal`) and which is necessary (C02Abs finding: with
+    the opponent in check the generator emits a king capture that `MakeMove` does not book).
 
 Setting. `abs p : Spec.Pos` is the chess position a model position denotes, `absMove m : Spec.Move` the
 chess move an engine move denotes (`Magog/AbsMove.lean`), `Inv p` the shared well-formedness invariant
@@ -190,5 +202,189 @@ example : ∃ ms, genPseudo Killers.empty c06Witness = .ok ms ∧
   obtain ⟨a1, _⟩ := genPseudo_aux inv_c06Witness h rm hrm
   rw [he] at a1
   exact ⟨ms, h, rm, hrm, he, by rw [a1, c06Witness_moves.2.2.1]⟩
+
+/-! ## The legal layer
+
+`generateMoves kt p` = `genPseudo kt p` filtered by `isLegal p` (= `makeMove` on a copy, verdict "the mover's
+king is not attacked afterwards"). Helper lemmas: `Magog/Lemmas/LegalMoves.lean` (verdict, filter, permutation),
+`Lemmas/CastleSpec.lean` (castling geometry), `Lemmas/CountInv.lean` (side conditions of C06 from `Inv`),
+`Lemmas/CountNoPanic.lean` (`countMoves` never panics), `Lemmas/LegalCount.lean` (mate / stalemate). -/
+
+section Legal
+set_option autoImplicit false
+open Magog.MM Magog.LegalWitness
+
+/-- Where the precondition `OppSafe` comes from: on a well-formed position it says exactly that the side
+    NOT to move is not in check, in the sense of the rules. -/
+theorem oppSafe_iff {p : Position} (inv : Inv p) :
+    OppSafe p ↔ ¬ Spec.inCheck (abs p).board (abs p).turn.other = true := by
+  rw [LegalMoves.oppSafe_iff inv, Bool.not_eq_true]
+
+/-- … and every position that is a legal chess position in the sense of `Spec.Legal` satisfies it. -/
+theorem oppSafe_of_legal {p : Position} (inv : Inv p) (h : Spec.Legal (abs p) = true) : OppSafe p :=
+  LegalMoves.oppSafe_of_legal inv h
+
+set_option maxRecDepth 100000 in
+/-- the start position and the C06 witness are legal chess positions in the sense of `Spec.Legal` -/
+example : Spec.Legal (abs startPosition) = true ∧ Spec.Legal (abs c06Witness) = true := by
+  constructor <;> decide +kernel
+
+example : Inv startPosition ∧ OppSafe startPosition ∧
+    ¬ Spec.inCheck (abs startPosition).board (abs startPosition).turn.other = true :=
+  ⟨inv_startPosition, Props.C02.oppSafe_start, (oppSafe_iff inv_startPosition).1 Props.C02.oppSafe_start⟩
+
+/-- the two copies of "generated by the pseudo-legal generator" used by C02 / C02Abs are the same predicate -/
+theorem generated_iff {p : Position} {m : Move} : MM.Generated p m ↔ MMAbs.Generated p m := Iff.rfl
+
+/-- 6. **The engine's king-safety verdict is the rule's.** For every generated move of a well-formed
+    position with the opponent not in check, `isLegal` (MakeMove on a copy + attack test on the NEW board
+    with the mover's king) returns normally and answers exactly "after the move, by the rules
+    (`Spec.apply`), the mover is not in check (`Spec.inCheck`)". -/
+theorem isLegal_spec {p : Position} {m : Move} (inv : Inv p) (hS : OppSafe p) (hG : Generated p m) :
+    isLegal p m = .ok (!(Spec.inCheck (Spec.apply (abs p) (absMove m)).board (abs p).turn)) :=
+  LegalMoves.isLegal_spec inv hS hG
+
+/-- instantiated: 1.e4 in the start position — hypotheses hold, the verdict is `true`, hence through the
+    theorem the rules say "White is not in check after 1.e4" -/
+example : Generated startPosition ⟨0x14, 0x34, 0, 0x24⟩ ∧ absMove ⟨0x14, 0x34, 0, 0x24⟩ = ⟨12, 28, none⟩ ∧
+    Spec.inCheck (Spec.apply (abs startPosition) (absMove ⟨0x14, 0x34, 0, 0x24⟩)).board
+      (abs startPosition).turn = false := by
+  refine ⟨Props.C02.generated_e2e4, by decide, ?_⟩
+  have h := isLegal_spec inv_startPosition Props.C02.oppSafe_start Props.C02.generated_e2e4
+  have h' : isLegal startPosition ⟨0x14, 0x34, 0, 0x24⟩ = .ok true := okVal_eq_some (by decide +kernel)
+  rw [h'] at h
+  have := ok_inj h
+  simpa using this.symm
+
+/-- 7. **No panic on any legal position**: the legal-move generator returns normally. -/
+theorem C01_generateMoves_ok {p : Position} {kt : Killers} (inv : Inv p) (hS : OppSafe p)
+    (hk : kt.size = Gen.killerMovesMaxPly) : ∃ ms, generateMoves kt p = .ok ms :=
+  LegalMoves.generateMoves_ok inv hS hk
+
+example : ∃ ms, generateMoves Killers.empty startPosition = .ok ms :=
+  C01_generateMoves_ok inv_startPosition Props.C02.oppSafe_start Props.C18.killers_empty_size
+
+example : ∃ ms, generateMoves Killers.empty c06Witness = .ok ms :=
+  C01_generateMoves_ok inv_c06Witness oppSafe_c06Witness Props.C18.killers_empty_size
+
+/-- 8. **C01: the moves the engine treats as playable are exactly the legal moves, each exactly once.**
+    The list of chess moves denoted by the result of `generateMoves` is a permutation of
+    `Spec.legalMoves (abs p)` (which is duplicate-free: `LegalMoves.legalMoves_nodup`); in particular it has
+    no duplicates, contains every legal move and nothing else. The killer table `kt` is arbitrary. -/
+theorem C01_legal_exact {p : Position} {kt : Killers} {ms : List RMove} (inv : Inv p) (hS : OppSafe p)
+    (h : generateMoves kt p = .ok ms) :
+    (ms.map fun rm => absMove rm.mov).Perm (Spec.legalMoves (abs p)) :=
+  LegalMoves.legal_perm inv hS h
+
+/-- 8'. The same as membership + multiplicity: a chess move is denoted by a generated move iff it is legal,
+    and no chess move is denoted twice. -/
+theorem C01_legal_mem {p : Position} {kt : Killers} {ms : List RMove} (inv : Inv p) (hS : OppSafe p)
+    (h : generateMoves kt p = .ok ms) :
+    (∀ sm : Spec.Move, (∃ rm ∈ ms, absMove rm.mov = sm) ↔ Spec.legal (abs p) sm = true) ∧
+    (ms.map fun rm => absMove rm.mov).Nodup := by
+  have hp := C01_legal_exact inv hS h
+  refine ⟨fun sm => ?_, hp.nodup_iff.2 (LegalMoves.legalMoves_nodup _)⟩
+  rw [← LegalMoves.mem_legalMoves, ← hp.mem_iff, List.mem_map]
+
+/-- the specification's own list of legal moves has no duplicates and contains exactly the legal moves
+    (so "permutation of `Spec.legalMoves`" really means "each legal move once") -/
+theorem legalMoves_spec (P : Spec.Pos) :
+    (Spec.legalMoves P).Nodup ∧ ∀ sm, sm ∈ Spec.legalMoves P ↔ Spec.legal P sm = true :=
+  ⟨LegalMoves.legalMoves_nodup P, fun _ => LegalMoves.mem_legalMoves⟩
+
+/-- instantiated on the start position: the hypotheses hold, the generator returns 20 moves, hence — through
+    the theorem, not by evaluating the specification — the rules of chess give exactly 20 legal first moves,
+    e2-e4 among them -/
+example : ∃ ms, generateMoves Killers.empty startPosition = .ok ms ∧ ms.length = 20 ∧
+    (Spec.legalMoves (abs startPosition)).length = 20 ∧ Spec.legal (abs startPosition) ⟨12, 28, none⟩ = true := by
+  obtain ⟨ms, h⟩ := C01_generateMoves_ok (kt := Killers.empty) inv_startPosition Props.C02.oppSafe_start
+    Props.C18.killers_empty_size
+  have hl : ms.length = 20 := by
+    have := start_gen_len
+    rw [h] at this
+    exact Option.some.inj this
+  have hp := C01_legal_exact inv_startPosition Props.C02.oppSafe_start h
+  refine ⟨ms, h, hl, by rw [← hp.length_eq, List.length_map, hl], start_e2e4_legal⟩
+
+/-- 9. **Mate / stalemate detection, part 1**: the generator returns the empty list exactly when the rules
+    give no legal move. (`kt.size` is needed for the direction ←: with a too-short killer table the generator
+    panics on the first quiet pseudo-legal move, also in a mated position.) -/
+theorem C01_mate_stalemate {p : Position} {kt : Killers} (inv : Inv p) (hS : OppSafe p)
+    (hk : kt.size = Gen.killerMovesMaxPly) :
+    generateMoves kt p = .ok [] ↔ (Spec.legalMoves (abs p)).isEmpty = true :=
+  LegalCount.generate_nil_iff inv hS hk
+
+/-- 10. **Mate detection**: `isCheckMate` (`isCurrentKingUnderCheck() && countMoves() == 0`) never panics
+    and is the rules' "side to move is checkmated". (Uses C06 `countMoves_eq_length`, all of whose side
+    conditions follow from `Inv` and `OppSafe` — `CountInv.countOk_of_inv` — and `countMoves_ok`.) -/
+theorem C01_isCheckMate {p : Position} (inv : Inv p) (hS : OppSafe p) :
+    isCheckMate p = .ok (Spec.isMated (abs p)) :=
+  LegalCount.isCheckMate_spec inv hS
+
+/-- 11. **Terminal nodes of the search**: `isCurrentKingUnderCheck` is the rules' "side to move is in
+    check"; and at a node where the generator found no move, `terminalNodeScore` is the mate score of the
+    depth exactly when the rules say checkmate, the draw score exactly when they say stalemate — one of the
+    two holds. -/
+theorem C01_terminal {p : Position} {kt : Killers} (inv : Inv p) (hS : OppSafe p) (d : Int) :
+    isCurrentKingUnderCheck p = .ok (Spec.inCheck (abs p).board (abs p).turn) ∧
+    (generateMoves kt p = .ok [] →
+      terminalNodeScore p d = .ok (if Spec.isMated (abs p) then Gen.LostScore + d else (Gen.DrawScore : Int)) ∧
+      Spec.isStalemate (abs p) = !Spec.isMated (abs p)) := by
+  refine ⟨LegalCount.inCheck_spec inv, fun h => ?_⟩
+  have hp := C01_legal_exact inv hS h
+  rw [List.map_nil] at hp
+  have he : Spec.legalMoves (abs p) = [] := hp.nil_eq.symm
+  unfold Spec.isMated Spec.isStalemate
+  rw [he, LegalCount.terminalNodeScore_spec inv d]
+  generalize Spec.inCheck (abs p).board (abs p).turn = c
+  cases c <;> exact ⟨rfl, rfl⟩
+
+/-- instantiated on fool's mate (1.f3 e5 2.g4 Qh4#): hypotheses hold, the engine says "mate", hence the rules
+    say White is checkmated and has no legal move; the terminal score is the mate score -/
+example : Inv Lemmas.AlphaBeta.foolsMate ∧ OppSafe Lemmas.AlphaBeta.foolsMate ∧
+    Spec.isMated (abs Lemmas.AlphaBeta.foolsMate) = true ∧
+    (Spec.legalMoves (abs Lemmas.AlphaBeta.foolsMate)).isEmpty = true ∧
+    terminalNodeScore Lemmas.AlphaBeta.foolsMate 3 = .ok (Gen.LostScore + 3) := by
+  have h1 := C01_isCheckMate inv_foolsMate oppSafe_foolsMate
+  rw [Lemmas.AlphaBeta.fm_mate] at h1
+  have hm : Spec.isMated (abs Lemmas.AlphaBeta.foolsMate) = true := (ok_inj h1).symm
+  have h2 := (C01_mate_stalemate inv_foolsMate oppSafe_foolsMate Props.C18.killers_empty_size).1
+    Lemmas.MateValue.fm_gen
+  have h3 := ((C01_terminal (kt := Killers.empty) inv_foolsMate oppSafe_foolsMate 3).2 Lemmas.MateValue.fm_gen).1
+  rw [hm] at h3
+  exact ⟨inv_foolsMate, oppSafe_foolsMate, hm, h2, h3⟩
+
+/-- instantiated on a stalemate (Black Kh8 to move, White Qf7 Kg6): the engine finds no move and no check,
+    hence the rules say stalemate, not mate; the terminal score is the draw score -/
+example : Inv stalematePos ∧ OppSafe stalematePos ∧ Spec.isStalemate (abs stalematePos) = true ∧
+    Spec.isMated (abs stalematePos) = false ∧ terminalNodeScore stalematePos 3 = .ok (Gen.DrawScore : Int) := by
+  obtain ⟨hc, ht⟩ := C01_terminal (kt := Killers.empty) inv_stalematePos oppSafe_stalematePos 3
+  rw [stale_check] at hc
+  have hc' := (ok_inj hc).symm
+  obtain ⟨t1, t2⟩ := ht stale_gen
+  have hm : Spec.isMated (abs stalematePos) = false := by
+    simp only [Spec.isMated, hc', Bool.and_false]
+  rw [hm] at t1 t2
+  exact ⟨inv_stalematePos, oppSafe_stalematePos, t2, hm, t1⟩
+
+/-- 12. **Castling through the engine's path test is legal** (`Count.CastleSafe`, the side condition C06
+    kept as a hypothesis): if the castling right is set and `castleKOk` / `castleQOk` pass (squares between
+    empty; king's square, crossed square and destination not attacked on the CURRENT board), the castling move
+    passes `isLegal` (king not attacked on the NEW board). Chess geometry at the specification level
+    (`CastleSpec.castle_not_inCheck`): a line to the king's destination through the vacated king square also
+    runs through the rook's destination, and none runs through the vacated rook square. -/
+theorem castleSafe_of_inv {p : Position} (inv : Inv p) (hS : OppSafe p) : Count.CastleSafe p :=
+  LegalMoves.castleSafe_of_inv inv hS
+
+set_option maxRecDepth 100000 in
+/-- non-vacuous on `c06Witness` (1.e4 e5 2.Nf3 Nc6 3.Bc4 Bc5 4.a4 a6 5.a5 b5): the king-side right is set and
+    the path test passes, so the theorem yields that O-O passes `isLegal` -/
+example : c06Witness.ctx.kOk = true ∧ castleKOk c06Witness c06Witness.ctx = .ok true ∧
+    isLegal c06Witness ⟨c06Witness.ctx.cur.king, castleKTo c06Witness.ctx, 0, InvalidSq⟩ = .ok true := by
+  have h1 : c06Witness.ctx.kOk = true := by decide +kernel
+  have h2 : castleKOk c06Witness c06Witness.ctx = .ok true := okVal_eq_some (by decide +kernel)
+  exact ⟨h1, h2, (castleSafe_of_inv inv_c06Witness oppSafe_c06Witness).2 h1 h2⟩
+
+end Legal
 
 end Magog.Props.C01
